@@ -34,11 +34,24 @@ func c15CreateURL(w *World, r *Report) {
 	}
 	recv, val := fn.Params[0], fn.Params[1]
 	for _, f := range []string{"Scheme", "Path", "RawPath", "RawQuery"} {
-		v, _ := storedField(lits[0], f)
+		v, st := storedField(lits[0], f)
 		ok := false
 		if v != nil {
 			root, p := accessPath(v)
 			ok = root == ssa.Value(val) && len(p) == 1 && p[0] == f
+		}
+		// ... on every path, and before the rewriter sees the URL (it derives the new path from what is there)
+		if ok && st != nil {
+			for _, ret := range returnsOf(fn) {
+				if !dominatesInstr(st, ret) {
+					ok = false
+				}
+			}
+			for _, c := range findCalls(fn, func(c *ssa.CallCommon) bool { return methodCallNamed(c, "Rewrite") }) {
+				if !dominatesInstr(st, c) {
+					ok = false
+				}
+			}
 		}
 		r.Ob(ri, w.FnName(fn)+"|"+f+"-from-request", lits[0].Pos(), ok, "URL component "+f+" must be taken from the same component of the request URL")
 	}
